@@ -1,7 +1,8 @@
 (* C03 -- property theorems. This file holds ONLY statements, `exact <lemma>`, non-vacuity
    examples and Print Assumptions, so that the statements cannot be weakened quietly. *)
-From Coq Require Import ZArith List Bool Permutation.
-From Typhon Require Import Model.C03_tree Proofs.C03_tree.
+From Coq Require Import ZArith List Bool Permutation Sorted Lia.
+From Typhon Require Import Model.C03_tree Proofs.C03_tree Model.C03_match Proofs.C03_match Proofs.C03_fuel
+  Model.C03_asis Proofs.C03_asis.
 Import ListNotations.
 Open Scope Z_scope.
 
@@ -55,6 +56,215 @@ Example nonvacuous :
   match_model 1 [(0, 1); (20, 30); (11, 12)] [(5, 6); (1, 2); (3, 10)] = [(0, [1]); (2, [2])].
 Proof. vm_compute. repeat split; repeat constructor; discriminate. Qed.
 
+(* ====================================================================================================
+   The whole of FileSet.match(other, start, end, max_interval) -- Model/C03_match.v.
+   Times are integer microseconds; [dmin, dmax] is the range of datetime (DT_MIN, DT_MAX on the 1970 axis);
+   mi / start / end_ = None: argument not given (open side).  prim, sec: the listings of the two filesets
+   in the order of find(); the yielded numbers are positions in these listings.
+   wperiod = [max(dmin, start - mi), min(dmax, end + mi) - 1us]: the widened and clamped period, closed.
+   ==================================================================================================== *)
+
+(* (1) the period clause and the matching, for the four open/closed combinations and the clamp cases alike:
+   when the widened period is not empty and holds a file of either fileset, match() yields exactly the
+   brute-force specification. *)
+Theorem match_full_exact : forall dmin dmax mi start end_ prim sec,
+  period_ok dmin dmax mi start end_ ->
+  Forall (fun '(a, b) => a <= b) sec ->
+  let w := wperiod dmin dmax mi start end_ in
+  fst w <= snd w -> find_sel w prim <> [] -> find_sel w sec <> [] ->
+  match_full dmin dmax mi start end_ prim sec = Yields (match_full_spec dmin dmax mi start end_ prim sec).
+Proof. exact match_full_correct. Qed.
+
+(* the outcome in every case: an empty widened period raises ValueError (OverflowError when end = datetime.min),
+   a period without a file of one of the filesets raises NoFilesError, everything else yields the specification *)
+Theorem match_full_outcome : forall dmin dmax mi start end_ prim sec,
+  period_ok dmin dmax mi start end_ ->
+  Forall (fun '(a, b) => a <= b) sec ->
+  let w := wperiod dmin dmax mi start end_ in
+  match_full dmin dmax mi start end_ prim sec =
+  if snd w <? fst w then Raised (if snd w <? dmin then OverflowError else ValueError)
+  else match find_sel w prim, find_sel w sec with
+       | [], _ => Raised NoFilesError
+       | _, [] => Raised NoFilesError
+       | _, _ => Yields (match_full_spec dmin dmax mi start end_ prim sec)
+       end.
+Proof. exact match_full_outcome_lemma. Qed.
+
+(* the same without the specification function: position i of the first listing is yielded iff that file
+   overlaps the widened period and has at least one partner; its partner list holds exactly the positions j
+   of the second listing whose file overlaps the widened period and whose coverage (whole seconds), widened by
+   max_interval (whole seconds) on both sides, intersects the coverage of file i; nothing is yielded twice. *)
+Theorem match_full_yields_exactly : forall dmin dmax mi start end_ prim sec out,
+  period_ok dmin dmax mi start end_ ->
+  Forall (fun '(a, b) => a <= b) sec ->
+  match_full dmin dmax mi start end_ prim sec = Yields out ->
+  let pe := wperiod dmin dmax mi start end_ in
+  let ms := mi_us mi / US in
+  let is_partner i j :=
+      0 <= j < Z.of_nat (length sec) /\ overlaps pe (file_at sec j) = true /\
+      partner ms (file_at prim i) (file_at sec j) = true in
+  (forall i, In i (map fst out) <->
+             0 <= i < Z.of_nat (length prim) /\ overlaps pe (file_at prim i) = true /\ exists j, is_partner i j) /\
+  (forall i js, In (i, js) out -> forall j, In j js <-> is_partner i j) /\
+  NoDup (map fst out) /\
+  Forall (fun r => NoDup (snd r)) out.
+Proof. exact match_full_yields_lemma. Qed.
+
+(* max_interval=None behaves as max_interval=0 *)
+Theorem match_none_is_zero : forall dmin dmax start end_ prim sec,
+  period_ok dmin dmax None start end_ ->
+  match_full dmin dmax None start end_ prim sec = match_full dmin dmax (Some 0) start end_ prim sec.
+Proof. exact match_full_none_zero. Qed.
+
+(* for files and a max_interval of whole seconds (every harness file, every time stamp without sub-second
+   placeholder) the comparison in seconds is the comparison of the coverages themselves *)
+Theorem partner_in_whole_seconds : forall ms p s,
+  (US | lo p) -> (US | hi p) -> (US | lo s) -> (US | hi s) ->
+  partner ms p s = (lo s - ms * US <=? hi p) && (lo p <=? hi s + ms * US).
+Proof. exact partner_whole_seconds. Qed.
+
+(* (2) "in time order".  What the code guarantees: primaries and partners come in the ORDER OF THE LISTINGS of
+   find() (strictly increasing positions) ... *)
+Theorem match_full_listing_order : forall dmin dmax mi start end_ prim sec out,
+  period_ok dmin dmax mi start end_ ->
+  Forall (fun '(a, b) => a <= b) sec ->
+  match_full dmin dmax mi start end_ prim sec = Yields out ->
+  StronglySorted Z.lt (map fst out) /\ Forall (fun r => StronglySorted Z.lt (snd r)) out.
+Proof. exact match_full_order_lemma. Qed.
+
+(* ... hence, find() listing by (start, end) (key_le; C01), primaries are yielded with non-decreasing start
+   time, those of equal start with non-decreasing end time, and files equal in both in the order find() lists
+   them (the order of the directory listing); the same holds inside every partner list. *)
+Theorem match_full_time_order : forall dmin dmax mi start end_ prim sec out,
+  period_ok dmin dmax mi start end_ ->
+  Forall (fun '(a, b) => a <= b) sec ->
+  match_full dmin dmax mi start end_ prim sec = Yields out ->
+  (StronglySorted key_le prim ->
+   StronglySorted key_le (map (fun r => nth (Z.to_nat (fst r)) prim (0, 0)) out) /\
+   StronglySorted Z.le (map (fun r => fst (nth (Z.to_nat (fst r)) prim (0, 0))) out)) /\
+  (StronglySorted key_le sec ->
+   Forall (fun r => StronglySorted key_le (map (fun j => nth (Z.to_nat j) sec (0, 0)) (snd r)) /\
+                    StronglySorted Z.le (map (fun j => fst (nth (Z.to_nat j) sec (0, 0))) (snd r))) out).
+Proof. exact match_full_time_order_lemma. Qed.
+
+(* non-vacuity: on the real datetime range, files of March 2018 (microseconds since 1970), max_interval 5 s:
+   closed, open start, open end, both open, a start 3 s after datetime.min (clamped), an end at datetime.max
+   (clamped); an empty period; a period without files. *)
+Example match_full_nonvacuous :
+  let T := 1519862400000000 in
+  let prim := [(T, T + 10000000); (T + 40000000, T + 50000000); (T + 40000000, T + 90000000)] in
+  let sec := [(T + 12000000, T + 20000000); (T + 55000000, T + 57000000); (T + 100000000, T + 110000000)] in
+  let mi := Some 5000000 in
+  period_ok DT_MIN DT_MAX mi (Some (DT_MIN + 3000000)) (Some DT_MAX) /\
+  period_ok DT_MIN DT_MAX mi None None /\
+  Forall (fun '(a, b) => a <= b) sec /\ StronglySorted key_le prim /\
+  match_full DT_MIN DT_MAX mi (Some T) (Some (T + 30000000)) prim sec = Yields [(0, [0])] /\
+  match_full DT_MIN DT_MAX mi None (Some (T + 30000000)) prim sec = Yields [(0, [0])] /\
+  match_full DT_MIN DT_MAX mi (Some (T + 30000000)) None prim sec = Yields [(1, [1]); (2, [1])] /\
+  match_full DT_MIN DT_MAX mi None None prim sec = Yields [(0, [0]); (1, [1]); (2, [1])] /\
+  match_full DT_MIN DT_MAX mi (Some (DT_MIN + 3000000)) (Some DT_MAX) prim sec = Yields [(0, [0]); (1, [1]); (2, [1])] /\
+  match_full DT_MIN DT_MAX None None None prim sec = Yields [(2, [1])] /\
+  match_full DT_MIN DT_MAX None (Some T) (Some T) prim sec = Raised ValueError /\
+  match_full DT_MIN DT_MAX mi (Some (T + 200000000)) None prim sec = Raised NoFilesError.
+Proof.
+  cbv zeta. split; [unfold period_ok, mi_us, default, DT_MIN, DT_MAX; lia|].
+  split; [unfold period_ok, mi_us, default, DT_MIN, DT_MAX; lia|].
+  split; [repeat constructor; lia|].
+  split; [unfold key_le; repeat constructor; cbn [fst snd]; lia|].
+  vm_compute. repeat split; reflexivity.
+Qed.
+
+(* ====================================================================================================
+   (3) The fuel of `build` (= number of rows) is never exhausted -- Proofs/C03_fuel.v
+   ==================================================================================================== *)
+
+(* `built l t`: t is the tree _build_tree makes of l, a Leaf for the empty list ONLY.  The fuelled function
+   computes it whenever the fuel is at least the number of rows (mk_tree uses exactly that). *)
+Theorem build_never_starved : forall fuel l, (length l <= fuel)%nat -> Forall wf l -> built l (build fuel l).
+Proof. exact build_built_lemma. Qed.
+
+Theorem built_deterministic : forall l t1, built l t1 -> forall t2, built l t2 -> t1 = t2.
+Proof. exact built_unique. Qed.
+
+(* more fuel changes nothing *)
+Theorem build_fuel_irrelevant : forall f1 f2 l, (length l <= f1)%nat -> (length l <= f2)%nat -> Forall wf l ->
+  build f1 l = build f2 l.
+Proof. exact build_fuel_indep. Qed.
+
+Theorem tree_is_built : forall ivs, Forall wf ivs -> built (sort_lo ivs) (mk_tree ivs).
+Proof. exact mk_tree_built. Qed.
+
+(* depth: at most the number of intervals; at most log2(n) + 1 when the left ends are distinct *)
+Theorem tree_depth_le_size : forall ivs, Forall wf ivs -> (depth (mk_tree ivs) <= length ivs)%nat.
+Proof. exact mk_tree_depth. Qed.
+
+Theorem tree_depth_logarithmic : forall ivs k, Forall wf ivs -> NoDup (map lo ivs) -> (length ivs < 2 ^ k)%nat ->
+  (depth (mk_tree ivs) <= k)%nat.
+Proof. exact mk_tree_depth_log. Qed.
+
+Example fuel_nonvacuous :
+  let ivs := number [(5, 6); (1, 2); (3, 10); (0, 0); (-4, 0); (4, 10); (7, 7)] in
+  Forall wf ivs /\ NoDup (map lo ivs) /\ (length ivs < 2 ^ 3)%nat /\ depth (mk_tree ivs) = 3%nat /\
+  depth (mk_tree (number [(0, 9); (0, 0); (0, 5); (0, 7)])) = 1%nat.
+Proof.
+  cbv zeta. split; [apply number_wf; repeat constructor; cbn; lia|].
+  split; [cbn; repeat constructor; cbn; intuition lia|]. split; [cbn; lia|]. split; vm_compute; reflexivity.
+Qed.
+
+(* ====================================================================================================
+   (4) The code as it was before the repairs -- Model/C03_asis.v (one switch per repaired defect).
+   With the switches off it is the model above; each switch alone refutes the property.
+   ==================================================================================================== *)
+Theorem asis_switches_off_query : forall ivs q, query_asis flags_off ivs q = query ivs q.
+Proof. exact asis_off_query. Qed.
+
+Theorem asis_switches_off_point : forall ivs p fuel, (depth (mk_tree ivs) < fuel)%nat ->
+  query_pt_asis flags_off fuel ivs p = Some (query_pt ivs p).
+Proof. exact asis_off_point. Qed.
+
+Theorem asis_switches_off_match : forall dmin dmax mi start end_ prim sec,
+  period_ok dmin dmax mi start end_ -> start <> None -> end_ <> None ->
+  match_full_asis true dmin dmax mi start end_ prim sec = match_full dmin dmax mi start end_ prim sec.
+Proof. exact asis_off_match. Qed.
+
+(* 082daed #1: np.sort(axis=0) sorted the columns independently *)
+Theorem colsort_asis_refuted : exists rows q,
+  Forall wf (number rows) /\
+  ~ Permutation (query_asis only_colsort (number rows) q) (spec_query (number rows) q).
+Proof. exact asis_colsort_refuted_lemma. Qed.
+
+(* 082daed #2: a query covering the whole tree returned nothing *)
+Theorem spannone_asis_refuted : exists rows q,
+  Forall wf (number rows) /\
+  ~ Permutation (query_asis only_spannone (number rows) q) (spec_query (number rows) q).
+Proof. exact asis_spannone_refuted_lemma. Qed.
+
+(* 082daed #3: `if not intervals.any()` dropped a subtree of zeros *)
+Theorem anyzero_asis_refuted : exists rows q,
+  Forall wf (number rows) /\
+  ~ Permutation (query_asis only_anyzero (number rows) q) (spec_query (number rows) q).
+Proof. exact asis_anyzero_refuted_lemma. Qed.
+
+(* 082daed #4: _query_point recursed into the same node: no recursion budget suffices *)
+Theorem ptself_asis_refuted : exists rows p,
+  Forall wf (number rows) /\ spec_points (number rows) p <> [] /\
+  forall fuel, query_pt_asis only_ptself fuel (number rows) p = None.
+Proof. exact asis_ptself_diverges_lemma. Qed.
+
+(* 26612d6: without clamping, a period within max_interval of datetime.min raised OverflowError *)
+Theorem overflow_asis_refuted : exists dmin dmax mi start end_ prim sec,
+  period_ok dmin dmax mi start end_ /\
+  match_full_asis false dmin dmax mi start end_ prim sec = Raised OverflowError /\
+  match_full dmin dmax mi start end_ prim sec = Yields [(0, [0])].
+Proof. exact asis_overflow_refuted_lemma. Qed.
+
+(* fdf1ba2: an open start or end together with max_interval became NaT *)
+Theorem open_side_asis_refuted : exists dmin dmax mi start end_ prim sec,
+  period_ok dmin dmax mi start end_ /\
+  match_full_asis true dmin dmax mi start end_ prim sec = Raised NaTError /\
+  match_full dmin dmax mi start end_ prim sec = Yields [(0, [0])].
+Proof. exact asis_open_side_refuted_lemma. Qed.
+
 Print Assumptions query_exact.
 Print Assumptions query_each_once.
 Print Assumptions query_points_exact.
@@ -62,3 +272,25 @@ Print Assumptions contains_interval_iff.
 Print Assumptions contains_point_iff.
 Print Assumptions rank_invariant.
 Print Assumptions match_exact.
+Print Assumptions match_full_exact.
+Print Assumptions match_full_outcome.
+Print Assumptions match_full_yields_exactly.
+Print Assumptions match_none_is_zero.
+Print Assumptions partner_in_whole_seconds.
+Print Assumptions match_full_listing_order.
+Print Assumptions match_full_time_order.
+Print Assumptions build_never_starved.
+Print Assumptions built_deterministic.
+Print Assumptions build_fuel_irrelevant.
+Print Assumptions tree_is_built.
+Print Assumptions tree_depth_le_size.
+Print Assumptions tree_depth_logarithmic.
+Print Assumptions asis_switches_off_query.
+Print Assumptions asis_switches_off_point.
+Print Assumptions asis_switches_off_match.
+Print Assumptions colsort_asis_refuted.
+Print Assumptions spannone_asis_refuted.
+Print Assumptions anyzero_asis_refuted.
+Print Assumptions ptself_asis_refuted.
+Print Assumptions overflow_asis_refuted.
+Print Assumptions open_side_asis_refuted.
